@@ -17,6 +17,9 @@ var mutationBases = []string{
 	"def f ( a , b = 1 , * c , d , e = 2 , ** k ) : pass NL",
 	"def f ( * , a ) : return a NL",
 	"def f ( ** k ) : pass NL",
+	"def f ( * x , y ) : return x NL f ( y = 1 ) NL",
+	"z = lambda * x , y : x NL z ( y = 1 ) NL",
+	"def f ( x , * , y = 1 , ** k ) : return x NL f ( 1 , y = 2 , x1 = 3 ) NL",
 	"def f ( * a ) : IN return a NL",
 	"def f ( a = x ) : IN \"s\" IN return a NL f ( ) NL",
 	"def f ( ) : IN def g ( ) : IN2 return x IN return g NL f ( ) ( ) NL",
